@@ -1,13 +1,16 @@
 #!/usr/bin/env python3
 """Re-runs ./check on every kept seed (patched scratch copy of /repo/luna) and reports seeds that are no longer caught.
-usage: [SEED_DST=seeded_glue] tools_seed_recheck.py [--update] [id ...]     (--update rewrites caught / failed_obligations in meta.json)"""
-import json, os, subprocess, sys, shutil, tempfile, glob
+usage: [SEED_DST=seeded_glue] [JOBS=3] tools_seed_recheck.py [--update] [id ...]
+(--update rewrites caught / failed_obligations in meta.json)"""
+import json, os, subprocess, sys, shutil, tempfile, glob, concurrent.futures as cf
 ROOT = os.path.dirname(os.path.abspath(__file__))
 SD = os.environ.get("SEED_DST", "seeded")
 args = [a for a in sys.argv[1:] if a != "--update"]
 update = "--update" in sys.argv
 ids = args or sorted(os.path.basename(d) for d in glob.glob(os.path.join(ROOT, SD, "*")) if os.path.isdir(d))
-for sid in ids:
+
+
+def one(sid):
     d = tempfile.mkdtemp(prefix="recheck.", dir="/tmp")
     try:
         shutil.copytree("/repo/luna", os.path.join(d, "luna"))
@@ -15,16 +18,31 @@ for sid in ids:
         meta = json.load(open(mp))
         r = subprocess.run(f"patch -p1 -s < {os.path.join(ROOT, SD, sid, 'patch.diff')}", shell=True, cwd=d, capture_output=True, text=True)
         if r.returncode != 0:
-            print(sid, "PATCH-FAILED"); continue
+            return sid, "PATCH-FAILED"
         r = subprocess.run([os.path.join(ROOT, "check"), meta["property"]], env={**os.environ, "HWV_REPO": d}, capture_output=True, text=True)
         vio = [l for l in r.stdout.splitlines() if l.startswith("VIOLATION")]
         caught = r.returncode == 1 and bool(vio)
-        print(sid, "caught" if caught else f"MISSED exit={r.returncode}", len(vio), flush=True)
         if update:
             if "caught" in meta and not meta["caught"] and caught:
                 meta.setdefault("first_run", {"caught": False, "check_exit": meta.get("check_exit")})
             meta.update({"caught": caught, "check_exit": r.returncode, "violation_lines": vio[:6],
                          "failed_obligations": [l.strip() for l in r.stdout.splitlines() if "failed obligation" in l][:12]})
             json.dump(meta, open(mp, "w"), indent=1)
+        return sid, ("caught" if caught else f"MISSED exit={r.returncode}") + f" {len(vio)}"
     finally:
         shutil.rmtree(d, ignore_errors=True)
+
+
+# contiguous blocks per worker: seeds of one property share replays/ and evidence_scratch/ files, so they never run concurrently
+J = max(1, int(os.environ.get("JOBS", "1")))
+n = len(ids)
+blocks = [ids[k * n // J:(k + 1) * n // J] for k in range(J)]
+
+
+def block(b):
+    for sid in b:
+        print(*one(sid), flush=True)
+
+
+with cf.ThreadPoolExecutor(J) as ex:
+    list(ex.map(block, blocks))
